@@ -13,6 +13,7 @@ CONSTANTS
   PairSels = {"cur", "first"}
   MaxOps = 6
   Faults = FALSE
+  EffectiveOnly = FALSE
   MaxPend = 2
 INVARIANTS C07_LeaderInISR
 VIEW MCView
